@@ -43,12 +43,21 @@ Proof. exact database_clear_text. Qed.
 Theorem C04_wrong_password_opens_nothing : forall pw pw' b, pw' <> pw -> open_with pw' pw (Enc KPass b) = None.
 Proof. exact wrong_password_opens_nothing. Qed.
 
-(* a password-expiry tick, however it is interleaved with operator commands, never makes the
-   machine save a share without the password *)
-Theorem C04_share_always_saved_under_password :
-  forall sched, Forall (fun b => b = true) (saved (lrun sched)).
-Proof. exact share_always_saved_under_password. Qed.
-Print Assumptions C04_share_always_saved_under_password.
+(* "a share is always saved under the operator's password" is REFUTED for the prompt of
+   cmd/airgapped (known finding password-check-outside-command-lock): the password is checked in one
+   critical section (enterEncryptionPasswordIfNeeded) and used in the next (the command handler); a
+   password-expiry tick that falls in between clears it, and the master-key command then saves the
+   share under an empty password *)
+Theorem C04_share_saved_under_password_refuted : exists sched, saved (lrun sched) = [false].
+Proof. exact share_saved_under_password_refuted. Qed.
+Print Assumptions C04_share_saved_under_password_refuted.
+(* partial: in every interleaving of commands and ticks in which the tick takes no step in that gap
+   every share is saved under the password - inside each section the command owns the lock and the
+   tick waits (what Machine.DropSensitiveData's own lock provides) *)
+Theorem C04_share_saved_under_password_partial :
+  forall sched, gapless_from linit sched = true -> Forall (fun b => b = true) (saved (lrun sched)).
+Proof. exact share_saved_under_password_partial. Qed.
+Print Assumptions C04_share_saved_under_password_partial.
 
 (* "key material of different rounds is unrelated" is REFUTED (known finding
    same-dealer-polynomial): the dealer's polynomial does not depend on the round; with the same
